@@ -31,6 +31,22 @@ def index_arg(ixs, kinds):
     return t
 
 
+def make_pre(ixs, kinds, dims, mode="label"):
+    """the index objects of every spelling, built WITHOUT calling the library (same construction as in get): lets a caller snapshot them before
+    the call and see afterwards whether the library modified what it was given"""
+    if mode == "position":
+        kinds = ["i"] * max(len(ixs), len(kinds))
+    nf = nonfull(ixs)
+    pre = {"t": dec_tuple(ixs, kinds)}
+    ok_dict = all(ix[0] != "e" for ix in ixs) and len(ixs) <= len(dims)
+    if ok_dict:
+        pre["dn"] = {dims[i]: decode_ix(ix, kinds[i]) for i, ix in nf}
+        pre["di"] = {i: decode_ix(ix, kinds[i]) for i, ix in nf}
+        if len(nf) == 1:
+            pre["ax"] = decode_ix(nf[0][1], kinds[nf[0][0]])
+    return pre
+
+
 def get(a, ixs, spelling, kinds, dims=None, tol=None, keepdims=False, mode="label", pre=None):
     """read with the given spelling; label-mode spellings first, then position-mode ones.
     pre: a dict owned by the caller; the index objects (tuple, lists, ndarrays, {dim: index} mapping) are built once and kept in it, so that
